@@ -25,6 +25,15 @@ A scenario therefore may (a) configure the SAME union earlier with other tag nam
 spellings and USE it in between (structure, unstructure, list[U], get_*_hook: every dispatch cache is warm with the
 earlier hooks) — all oracles are then evaluated against the LAST configuration of U; (b) configure DIFFERENT unions
 sharing members with U on the same converter before and after — U's oracles must be unaffected.
+
+Routes: "a converter" is not only one built by calling the class.  The converter under test may be PRODUCED BY
+`.copy()` / `.copy(<the current options, spelled out>)` / `.copy(<overrides>)` of a converter constructed with other
+options / `copy.deepcopy` — once or several times (copies of copies) — BEFORE the strategy is applied (`pre`), between
+the earlier configurations and the checked one (`mid`), or AFTER everything was configured (`post`: the copy must have
+inherited the strategy).  Steps after the first configuration keep the options (the hooks captured at configuration time
+are those of the source's options, which is what the reference converter has).  Every oracle is evaluated on the final
+converter; `ROUTE` (a separate small stream, model op `TAGROUTE`) compares WHICH registered union hook every converter
+of a random construct / copy / register history returns with the copy model of `Tagged/Copy.lean`.
 """
 from __future__ import annotations
 
@@ -94,6 +103,75 @@ def prune_linecache():
             del linecache.cache[k]
 
 
+# ---------------------------------------------------------------------------------------------- routes
+
+COPY_STEPS = ("copy", "deepcopy", "copy-same", "copy-to")
+
+
+def normalise_route(route):
+    r = {"base": None, "pre": [], "mid": [], "post": []}
+    r.update(route or {})
+    return r
+
+
+def route_name(route):
+    r = normalise_route(route)
+    if not (r["pre"] or r["mid"] or r["post"]):
+        return "direct"
+    return "/".join(ph + ":" + "+".join(r[ph]) for ph in ("pre", "mid", "post") if r[ph])
+
+
+def option_kwargs(o):
+    kw = {"detailed_validation": o["detailed"],
+          "unstruct_strat": UnstructureStrategy.AS_TUPLE if o["tuple"] else UnstructureStrategy.AS_DICT}
+    if o["gen"]:
+        kw["forbid_extra_keys"] = o["forbid"]
+        kw["omit_if_default"] = o["omit"]
+    return kw
+
+
+def copy_step(c, step, opts):
+    """one way of producing a converter from a converter; `opts` = the options the result must have"""
+    if step == "copy":
+        return c.copy()
+    if step == "deepcopy":
+        return copy.deepcopy(c)
+    if step in ("copy-same", "copy-to"):      # the options spelled out (equal to the source's / overriding the base's)
+        return c.copy(**option_kwargs(opts))
+    raise ValueError(step)
+
+
+def gen_route(rng, opts):
+    """-> route (None = the converter is constructed directly)"""
+    r = rng.random()
+    if r < 0.45:
+        return None
+    keep = ["copy", "deepcopy", "copy-same"]
+
+    def steps(n):
+        return [rng.choice(keep) for _ in range(n)]
+
+    route = {"base": None, "pre": [], "mid": [], "post": []}
+    shape = rng.choice(["pre", "pre", "post", "post", "mid", "pre+post", "pre2", "post2", "all"])
+    if shape in ("pre", "pre+post", "all"):
+        route["pre"] = steps(1)
+    if shape == "pre2":
+        route["pre"] = steps(2)
+    if shape in ("post", "pre+post", "all"):
+        route["post"] = steps(1)
+    if shape == "post2":
+        route["post"] = steps(2)
+    if shape in ("mid", "all"):
+        route["mid"] = steps(1)
+    if route["pre"] and rng.random() < 0.4:
+        # the first converter has OTHER options (same class); the copy overrides them to the ones under test
+        base = dict(rng.choice([o for o in OPTIONS if o["gen"] == opts["gen"]]))
+        if base != opts:
+            route["base"] = base
+            route["pre"][-1] = "copy-to"
+    return route
+
+
 # ---------------------------------------------------------------------------------------------- scenario
 
 def norm_tags(tags):
@@ -105,8 +183,9 @@ class Scenario:
     preceded by earlier configurations (`before`: of the same union — re-configuration — or of other unions sharing
     members; each one is used before the next call) and followed by configurations of OTHER unions (`after`)."""
 
-    def __init__(self, drv, world, opts, ucfg, before=None, after=None, use=None):
+    def __init__(self, drv, world, opts, ucfg, before=None, after=None, use=None, route=None):
         prune_linecache()
+        self.route = normalise_route(route)
         self.drv = drv
         self.world = world
         self.opts = opts
@@ -122,8 +201,10 @@ class Scenario:
         self.default = ucfg["default"]
         # tag of every class (abstract); "name" mode = default_tag_generator
         self.tags = self.tags_of(ucfg)
+        self.route_error = None
         self.fresh = make_converter(opts)
-        self.conv = make_converter(opts)
+        self.conv = make_converter(self.route["base"] or opts)
+        self.conv = self.follow("pre", self.conv)
         self.configure_error = None
         self.history_errors = 0
         # Region of the recorded finding F60 (recursive-class-hetero-tuple-late-binding, a C03 matter): a class that refers
@@ -136,6 +217,7 @@ class Scenario:
                 self.use_union(self.apply(h))
             except Exception:  # noqa: BLE001  an earlier configuration that cannot be applied is simply not there
                 self.history_errors += 1
+        self.conv = self.follow("mid", self.conv)
         try:
             self.apply(ucfg)
         except Exception as e:  # noqa: BLE001
@@ -154,6 +236,16 @@ class Scenario:
                 c.register_structure_hook(_Unrelated, lambda v, _: _Unrelated())
                 c.register_unstructure_hook_func(lambda t: t is _Unrelated2, lambda v: "unrelated2")
                 c.register_structure_hook_factory(lambda t: t is _Unrelated2, lambda t: (lambda v, _: _Unrelated2()))
+        self.conv = self.follow("post", self.conv)
+
+    def follow(self, phase, c):
+        """the converter under test is replaced by a copy of itself, once per step of this phase of the route"""
+        for step in self.route[phase]:
+            try:
+                c = copy_step(c, step, self.opts)
+            except Exception as e:  # noqa: BLE001  reported by the caller: producing a copy must not fail
+                self.route_error = (phase, step, e)
+        return c
 
     def un_text(self, o):
         return terms.canon_sx(tuples_as_lists(o) if self.f60 else o)
@@ -316,6 +408,8 @@ class Runner:
         c = {"world": S.world, "opts": S.opts, "ucfg": S.ucfg, "kind": kind}
         if S.before or S.after:
             c["before"], c["after"], c["use"] = S.before, S.after, S.use
+        if route_name(S.route) != "direct":
+            c["route"] = S.route
         c.update(kw)
         return c
 
@@ -327,6 +421,9 @@ class Runner:
                 return "%s%s:%s:%r:%s" % ("same" if set(h["members"]) == set(S.members) else "other", h["members"], h["tagmode"],
                                           h["tag_name"], h["default"])
             hist = " before=[%s] after=[%s]" % (", ".join(short(h) for h in S.before), ", ".join(short(h) for h in S.after))
+        rt = route_name(S.route)
+        if rt != "direct":
+            hist += " route=" + rt + ("(base %s)" % opt_name(S.route["base"]) if S.route["base"] else "")
         return "%s members=%s tag=%s name=%r default=%s%s" % (opt_name(S.opts), u["members"], u["tagmode"], u["tag_name"],
                                                               u["default"], hist)
 
@@ -567,6 +664,130 @@ class Runner:
                 chk.violation(f"C13 oracle R (nested in list[U]): got {out_text(rs)} [{self.label(S)}]", case)
 
 
+# ---------------------------------------------------------------------------------------------- ROUTE stream
+
+import attrs as _attrs  # noqa: E402
+
+
+@_attrs.define
+class RA:
+    a: int
+
+
+@_attrs.define
+class RB:
+    b: str
+
+
+@_attrs.define
+class RC:
+    c: float
+
+
+ROUTE_UNIONS = [typing.Union[RA, RB], typing.Union[RB, RC], typing.Union[RA, RB, RC]]
+
+
+def gen_route_history(rng):
+    """construct / copy / register-for-a-union / use, over up to 6 converters of one class"""
+    ops = [["new"]]
+    n_conv, n_hook = 1, 0
+    for _ in range(rng.randint(3, 10)):
+        r = rng.random()
+        if r < 0.1 and n_conv < 6:
+            ops.append(["new"])
+            n_conv += 1
+        elif r < 0.45 and n_conv < 6:
+            ops.append(["copy", rng.randrange(n_conv), rng.choice(["copy", "deepcopy", "copy-same"])])
+            n_conv += 1
+        elif r < 0.75:
+            ops.append(["st", rng.randrange(n_conv), rng.randrange(len(ROUTE_UNIONS)), n_hook])
+            n_hook += 1
+        elif r < 0.9:
+            ops.append(["un", rng.randrange(n_conv), rng.randrange(len(ROUTE_UNIONS)), n_hook])
+            n_hook += 1
+        else:
+            ops.append(["use", rng.randrange(n_conv)])
+    return ops
+
+
+def ask_hook(getter, U, mine):
+    try:
+        h = getter(U)
+    except KeyError:
+        return "keyerror"
+    except Exception as e:  # noqa: BLE001
+        return "raised:" + e.__class__.__name__
+    k = mine.get(id(h))
+    return "other" if k is None else "(hook %d)" % k
+
+
+def check_route(chk, drv, opts, ops, verbose=False):
+    """WHICH union hook does every converter of the history return?  Oracle (statement: the strategy holds on a
+    converter however it was produced): a converter returns the hook registered last for the union on it or — before it
+    was copied — on the converter it was copied from, transitively; nothing else, and never an exception."""
+    convs, st_reg, un_reg, how = [], [], [], []
+    mine, keep = {}, []
+
+    def hook(kind, k):
+        f = (lambda v, t, k=k: ("st", k)) if kind == "st" else (lambda v, k=k: ("un", k))
+        mine[id(f)] = k
+        keep.append(f)
+        return f
+
+    case = {"kind": "route", "opts": opts, "ops": ops}
+    lab = "%s ops=%s" % (opt_name(opts), " ".join("(" + " ".join(str(x) for x in op) + ")" for op in ops))
+    for op in ops:
+        try:
+            if op[0] == "new":
+                convs.append(make_converter(opts)); st_reg.append({}); un_reg.append({}); how.append("constructed")
+            elif op[0] == "copy":
+                convs.append(copy_step(convs[op[1]], op[2], opts))
+                st_reg.append(dict(st_reg[op[1]])); un_reg.append(dict(un_reg[op[1]])); how.append("%s of #%d" % (op[2], op[1]))
+            elif op[0] == "st":
+                convs[op[1]].register_structure_hook(ROUTE_UNIONS[op[2]], hook("st", op[3]))
+                st_reg[op[1]][op[2]] = op[3]
+            elif op[0] == "un":
+                convs[op[1]].register_unstructure_hook(ROUTE_UNIONS[op[2]], hook("un", op[3]))
+                un_reg[op[1]][op[2]] = op[3]
+            else:
+                for U in ROUTE_UNIONS:
+                    ask_hook(convs[op[1]].get_structure_hook, U, mine)
+                    ask_hook(convs[op[1]].get_unstructure_hook, U, mine)
+        except Exception as e:  # noqa: BLE001
+            chk.violation(f"C13 oracle (routes): step {op} raised {e!r} [{lab}]", case)
+            return
+    wire = " ".join("(" + " ".join(str(x) for x in (op[:2] if op[0] == "copy" else op)) + ")" for op in ops if op[0] != "use")
+    mm = drv.ask("TAGROUTE (ops %s) %d" % (wire, len(ROUTE_UNIONS)))
+    rows = terms.parse_sx(mm)
+    if rows[0] != "route" or len(rows) - 1 != len(convs):
+        raise lean.InfraError("model driver: " + mm)
+    chk.count("route:" + lab, sample={"case": lab, "model": mm})
+    chk.note("route-stream:histories", "route-stream:converters:%d" % len(convs),
+             "route-stream:copies:%d" % sum(1 for op in ops if op[0] == "copy"))
+    for i, c in enumerate(convs):
+        obs = []
+        for ui, U in enumerate(ROUTE_UNIONS):
+            for side, getter, reg in (("structure", c.get_structure_hook, st_reg), ("unstructure", c.get_unstructure_hook, un_reg)):
+                got = ask_hook(getter, U, mine)
+                want = "(hook %d)" % reg[i][ui] if ui in reg[i] else "other"
+                obs.append(got)
+                if verbose:
+                    print("  converter #%d (%s) %s hook of union %d: %s, expected %s" % (i, how[i], side, ui, got, want))
+                if got != want:
+                    chk.violation(f"C13 oracle (routes): converter #{i} ({how[i]}) returns {got} as {side} hook of union {ui}, "
+                                  f"the hook registered for it is {want} [{lab}]", case)
+                    return
+        model = [terms_text(x) for x in rows[1 + i]]
+        if model != obs:
+            chk.violation(f"correspondence corr:C13:TAGROUTE broken (theorems C13_copy_* no longer tied to the code): converter #{i} "
+                          f"impl={obs} model={model} [{lab}]", case, found_input=False)
+            return
+
+
+def terms_text(px):
+    return px if isinstance(px, str) else "(" + " ".join(terms_text(x) for x in px) + ")"
+
+
 # ---------------------------------------------------------------------------------------------- generation
 
 def gen_ucfg(rng, w, n_members, stream, members=None):
@@ -698,6 +919,12 @@ def run(chk: framework.Check):
     drv = lean.Driver()
     Rn = Runner(chk, drv)
     n_worlds = 70 if chk.tier == "quick" else 700
+    # which hook every converter of a construct / copy / register history returns (small inputs first)
+    for _ in range(150 if chk.tier == "quick" else 1500):
+        opts = rng.choice([o for o in OPTIONS if not o["tuple"]])
+        check_route(chk, drv, opts, gen_route_history(rng))
+        if len(chk.violations) >= 5:
+            break
     for wi in range(n_worlds):
         n_members = rng.randint(2, 5)
         w = G.world(n_classes=n_members + rng.randint(0, 1), n_enums=rng.randint(0, 1), kinds=("attrs", "dc"),
@@ -719,10 +946,15 @@ def run(chk: framework.Check):
         for ucfg in ucfgs:
             for opts in opts_here:
                 hkind, before, after, use = gen_history(rng, w, ucfg, xs)
+                route = gen_route(rng, opts)
                 try:
-                    S = Scenario(drv, w, opts, ucfg, before=before, after=after, use=use)
+                    S = Scenario(drv, w, opts, ucfg, before=before, after=after, use=use, route=route)
                 except Exception:  # noqa: BLE001  a world python itself rejects
                     chk.note("world-rejected-by-python")
+                    continue
+                if S.route_error is not None:
+                    chk.violation(f"C13: producing the converter failed: step {S.route_error[1]} ({S.route_error[0]}) raised "
+                                  f"{S.route_error[2]!r} [{Rn.label(S)}]", Rn.case(S, "configure"))
                     continue
                 if S.configure_error is not None:
                     # acceptable only if a member hook cannot be produced on a fresh converter either, or the
@@ -740,7 +972,8 @@ def run(chk: framework.Check):
                     else:
                         chk.note("configure-skipped:" + why)
                     continue
-                chk.note("stream:" + stream, "history:" + hkind)
+                chk.note("stream:" + stream, "history:" + hkind, "route:" + route_name(route),
+                         "route:" + ("direct" if route is None else "copied" + ("(options overridden)" if route["base"] else "")))
                 if S.history_errors:
                     chk.note("history:a-configuration-raised")
                 got = []
@@ -769,17 +1002,31 @@ def run(chk: framework.Check):
     chk.extra["histories"] = ("plain 40%; re-configuration 35% (the same union configured 1-2 times before with other tag names / "
                              "generators / defaults / member order, used in between; oracles against the last configuration); "
                              "two unions sharing members 25% (configured before and/or after the checked one)")
+    chk.extra["routes"] = ("the converter under test is constructed directly 45%; otherwise produced by copy() / copy(<options spelled "
+                           "out>) / copy.deepcopy, once or twice, before the strategy is applied, between the earlier configurations "
+                           "and the checked one, and/or after everything was configured; in 40% of the routes with a copy before the "
+                           "strategy the first converter has other options and the copy overrides them.  ROUTE stream: histories of "
+                           "construct / copy / register-for-a-union / use over up to 6 converters, which hook every converter returns "
+                           "for 3 unions (model: Tagged/Copy.lean, op TAGROUTE)")
     chk.extra["streams"] = "valid 70%; collision (tag name = a member's field) and non-injective generators are separate streams"
     drv.close()
 
 
 def replay(case):
     drv = lean.Driver()
+    if case.get("kind") == "route":
+        chk = framework.Check("C13", "replay", 0)
+        check_route(chk, drv, case["opts"], case["ops"], verbose=True)
+        for what, _, _ in chk.violations:
+            print("oracle:", what)
+        print("oracle:", "FAILS" if chk.violations else "holds")
+        return 1 if chk.violations else 0
     w = terms.world_from_json(case["world"])
     ucfg = dict(case["ucfg"])
     if ucfg.get("tags"):
         ucfg["tags"] = {int(k): terms.tuple_ify(v) for k, v in ucfg["tags"].items()}
-    S = Scenario(drv, w, case["opts"], ucfg, before=case.get("before"), after=case.get("after"), use=case.get("use"))
+    S = Scenario(drv, w, case["opts"], ucfg, before=case.get("before"), after=case.get("after"), use=case.get("use"),
+                 route=case.get("route"))
     chk = framework.Check("C13", "replay", 0)
     Rn = Runner(chk, drv)
     print("scenario:", Rn.label(S))
